@@ -833,6 +833,11 @@ func (sc sortedChunks) apply(sc1 sortedChunks, copyData bool) (sortedChunks, sor
 			sc[i].MaxTs = sc1[j].MaxTs
 			sc[i].MinTs = sc1[j].MinTs
 		} else {
+			if sc1[j].Recs == 0 && sc[i].Recs > 0 {
+				// the known entry accounts for no record (the chunk was empty, or its records could not
+				// be read then): it takes what lightFill has read now
+				sc1[j].Recs, sc1[j].MinTs, sc1[j].MaxTs = sc[i].Recs, sc[i].MinTs, sc[i].MaxTs
+			}
 			sc[i] = sc1[j]
 		}
 
